@@ -5,6 +5,9 @@
  G1  field declaration (= drop) order of the channel structs that own an allocator together with containers of handles
      into it  ->  lean/Mutiny/Generated/DropOrder.lean
  G2  inventory of the `vp!` hook tags per source file, in source order  ->  lean/Mutiny/Generated/Tags.lean
+ G3  the wake decision of every send path of every channel (guard chain -> wake target), as terms of a tiny expression
+     language  ->  lean/Mutiny/Generated/WakeRules.lean   (Props/C04_Rules.lean proves, for all MAX_STREAMS and lengths,
+     that each generated chain computes the wake rule of model M8 the C04 theorem is about)
 
 Deliberately tiny: struct bodies are located by `pub struct <Name>` ... matching brace, fields by `name: Type,` lines.
 """
@@ -49,6 +52,112 @@ def classify(fname, ftype):
     if re.search(r"\bOgreArc\s*<|\bOgreUnique\s*<", ftype): return "handles"
     return "other"
 
+
+# ---------------------------------------------------------------------------------------------------------------- G3
+WAKE_FILES = [
+    ("uniMovableAtomic",    "src/uni/channels/movable/atomic.rs"),
+    ("uniMovableFullSync",  "src/uni/channels/movable/full_sync.rs"),
+    ("uniMovableCrossbeam", "src/uni/channels/movable/crossbeam.rs"),
+    ("uniZeroCopyAtomic",   "src/uni/channels/zero_copy/atomic.rs"),
+    ("uniZeroCopyFullSync", "src/uni/channels/zero_copy/full_sync.rs"),
+    ("multiArcAtomic",      "src/multi/channels/arc/atomic.rs"),
+    ("multiArcFullSync",    "src/multi/channels/arc/full_sync.rs"),
+    ("multiArcCrossbeam",   "src/multi/channels/arc/crossbeam.rs"),
+    ("multiOgreArcAtomic",  "src/multi/channels/ogre_arc/atomic.rs"),
+    ("multiOgreArcFullSync","src/multi/channels/ogre_arc/full_sync.rs"),
+    ("multiMmapLog",        "src/multi/channels/reference/mmap_log.rs"),
+]
+
+def strip_comments(src):
+    return re.sub(r"//[^\n]*", "", src)
+
+def lean_str(x):
+    return '"' + x.replace("\\", "\\\\").replace('"', '\\"') + '"'
+
+def parse_var(t):
+    t = t.strip().replace(".get()", "")
+    if re.fullmatch(r"len_after\w*", t): return ".lenAfter"
+    if re.fullmatch(r"len_before\w*", t): return ".lenBefore"
+    return None
+
+def parse_expr(t):
+    t = re.sub(r"\s+", " ", t.strip())
+    if t == "MAX_STREAMS as u32": return "(.max 0)"
+    m = re.fullmatch(r"(\d+) \+ MAX_STREAMS as u32", t) or re.fullmatch(r"MAX_STREAMS as u32 \+ (\d+)", t)
+    if m: return f"(.max {m.group(1)})"
+    if re.fullmatch(r"\d+", t): return f"(.const {t})"
+    return None
+
+def parse_guard(text):
+    text = re.sub(r"\s+", " ", text.strip())
+    m = re.fullmatch(r"([\w.()]+) (<=|<|==) (.+)", text)
+    if m:
+        v, e = parse_var(m.group(1)), parse_expr(m.group(3))
+        if v and e: return f"(.{ {'<=': 'le', '<': 'lt', '==': 'eq'}[m.group(2)] } {v} {e})"
+    if re.fullmatch(r"\*?stream_id != u32::MAX", text): return ".notSentinel"
+    return f"(.other {lean_str(text)})"
+
+def parse_target(text):
+    text = re.sub(r"\s+", "", text.strip())
+    m = re.fullmatch(r"(len_\w+?)(?:-(\d+))?", text)
+    if m and parse_var(m.group(1)): return f"(.varMinus {parse_var(m.group(1))} {m.group(2) or 0})"
+    if re.fullmatch(r"\d+", text): return f"(.const {text})"
+    if text in ("*stream_id", "stream_id"): return ".streamId"
+    return f"(.other {lean_str(text)})"
+
+def wake_sites(path):
+    """[(fn name, [chain, ...])], chain = [(guard, target), ...] (an `else if` continues the chain of the site before it)"""
+    src = strip_comments(open(os.path.join(REPO, path)).read())
+    fns = [(m.start(), m.group(1)) for m in re.finditer(r"\bfn\s+(\w+)", src)]
+    out = {}
+    order = []
+    for m in re.finditer(r"wake_stream\(([^)]*)\)", src):
+        fn = [n for (p, n) in fns if p < m.start()][-1]
+        head = src[:m.start()]
+        # the controlling condition: the closest `if COND {` / `else if COND {` / match-arm guard `x if COND => {` whose block is
+        # still open at the call site
+        depth, i, guard, is_else = 0, len(head) - 1, None, False
+        while i >= 0:
+            c = head[i]
+            if c == "}": depth += 1
+            elif c == "{":
+                if depth > 0: depth -= 1
+                else:
+                    pre = head[max(0, i - 240):i]
+                    mm = re.search(r"(else\s+)?if\s+([^{};]+?)\s*$", pre)
+                    ma = re.search(r"\b\w+\s+if\s+([^{};=]+?(?:<=|==|<)[^{};=]+?)\s*=>\s*$", pre)
+                    if ma: guard, is_else = ma.group(1), False
+                    elif mm and not re.search(r"\bif\s+let\b", mm.group(0)): guard, is_else = mm.group(2), bool(mm.group(1))
+                    else: guard = None
+                    break
+            i -= 1
+        site = (parse_guard(guard) if guard else ".always", parse_target(m.group(1)))
+        if fn not in out: out[fn] = []; order.append(fn)
+        if is_else and out[fn]: out[fn][-1].append(site)
+        else: out[fn].append([site])
+    return [(fn, out[fn]) for fn in order]
+
+def gen_wake_rules():
+    lines = ["import Mutiny.Model.WakeRuleLang",
+             "/-! GENERATED by tools/extract.py (G3) from /repo's current source on every run -- do not edit.",
+             "    One definition per send path that calls `wake_stream`: its guard chains, in source order. -/",
+             "namespace Mutiny.Generated", "open Mutiny.WakeRuleLang", ""]
+    names = []
+    for (cname, path) in WAKE_FILES:
+        for fn, chains in wake_sites(path):
+            name = f"{cname}_{fn}"
+            names.append(name)
+            body = ", ".join("[" + ", ".join(f"({g}, {t})" for g, t in ch) + "]" for ch in chains)
+            lines.append(f"/-- `{fn}` in `{path}` -/")
+            lines.append(f"def {name} : List Chain := [{body}]")
+            lines.append("")
+    lines.append("def wakeSites : List (String × List Chain) := [" + ", ".join(f'("{n}", {n})' for n in names) + "]")
+    lines.append("")
+    lines.append("end Mutiny.Generated")
+    new = "\n".join(lines) + "\n"
+    p = os.path.join(OUT, "WakeRules.lean")
+    if not os.path.exists(p) or open(p).read() != new: open(p, "w").write(new)
+
 def main():
     os.makedirs(OUT, exist_ok=True)
     lines = ["import Mutiny.Model.Teardown",
@@ -88,3 +197,4 @@ def main():
 
 if __name__ == "__main__":
     main()
+    gen_wake_rules()
